@@ -866,7 +866,17 @@ func runOne(t *testing.T, h history, c *mc.Chooser, o runOpts) (out mc.Outcome) 
 			pending = inflight != nil || model.Pending()
 			e.mu.Unlock()
 			if started && len(ps) == 0 && (!pending || deliverBlocked) {
-				quiescent("after " + when)
+				// The statement sets no deadline for picking up an update: an implementation may reload on a timer
+				// (debounce, retry). Fake time passes before the state is judged as settled; a reload that a timer
+				// starts shows as a goroutine parked at a gate (the exploration goes on) or has run to its end.
+				time.Sleep(30 * time.Second)
+				synctest.Wait()
+				ps = g.list()
+				attribute(ps, nil, true)
+				check(when)
+				if len(ps) == 0 {
+					quiescent("after " + when)
+				}
 			}
 			if o.prune && precise && len(out.Violations) == 0 {
 				var sb strings.Builder
